@@ -265,9 +265,12 @@ fn pl_succ(s: &Desc, _depth: usize, tier: Tier) -> Vec<Desc> {
             out.push(push_field(s, "P", array_w(&name, 8, Shape::Static(2))));
         }
     } else {
-        // trailers and late size fields
+        // trailers and late size fields (the 4- and 12-bit letters build trailers whose fields
+        // are not whole octets one by one, only together)
         out.push(push_field(s, "P", scalar(&name, 8)));
         out.push(push_field(s, "P", scalar(&name, 16)));
+        out.push(push_field(s, "P", scalar(&name, 4)));
+        out.push(push_field(s, "P", scalar(&name, 12)));
         out.push(push_field(s, "P", array_w(&name, 8, Shape::Static(2))));
         out.push(push_field(s, "P", array_w(&name, 8, Shape::Unsized)));
         out.push(push_field(s, "P", size_of("_payload_", 8)));
@@ -510,6 +513,10 @@ fn in_roots() -> Vec<Vec<Field>> {
         vec![scalar("a", 8), payload(), scalar("z", 8)],
         vec![typedef("e", "Eo4"), scalar("a", 4), body()],
         vec![scalar("a", 8)],
+        // a dynamically sized field in front of an unsized payload; a sized payload with a
+        // multi-octet trailer (the payload-extent code paths that differ between backends)
+        vec![scalar("a", 8), count_of("t", 8), array_w("t", 8, Shape::Unsized), payload()],
+        vec![scalar("a", 8), size_of("_payload_", 16), payload(), scalar("z", 16)],
     ]
 }
 
@@ -579,14 +586,16 @@ fn in_succ(s: &Desc, _depth: usize, tier: Tier) -> Vec<Desc> {
                 }
             }
         }
+        // (the plain scalar body is 16 bits wide: a multi-octet field also exercises the byte
+        // order of the buffer the child is parsed from)
         let mut bodies: Vec<Vec<Field>> = vec![
             vec![],
-            vec![scalar(&format!("x{n_inh}"), 8)],
+            vec![scalar(&format!("x{n_inh}"), 16)],
             vec![scalar(&format!("x{n_inh}"), 8), payload()],
             vec![payload()],
         ];
         if tier == Tier::Thorough || n_inh == 0 {
-            bodies.push(vec![scalar(&format!("x{n_inh}"), 16)]);
+            bodies.push(vec![scalar(&format!("x{n_inh}"), 8)]);
             bodies.push(vec![array_w(&format!("x{n_inh}"), 8, Shape::Unsized)]);
         }
         for cs in &cs_alpha {
